@@ -209,19 +209,45 @@ inside the wrapper, and the wrapped expression is well shaped -/
 example :
     wtR [("R", [⟨"r", ⟨"int", 0, 0⟩⟩])] ⟨"R", 0, 1⟩
       (.disabled (.ref "FLAG" ⟨"FLAG", 0, 0⟩ ["on"])
-        (.merge "INNER" false (.struct [("r", .split "INNER" false (.ref "GEN" ⟨"GEN", 0, 0⟩ []))]))) = true
+        (.merge "INNER" false (.struct [("r", .ref "INNER.W" ⟨"W", 0, 0⟩ ["y"])]))) = true
     ∧ bpR "r" (.disabled (.ref "FLAG" ⟨"FLAG", 0, 0⟩ ["on"]) (.ref "GEN" ⟨"GEN", 0, 0⟩ ["o"]))
       = .disabled (.ref "FLAG" ⟨"FLAG", 0, 0⟩ ["on"]) (.ref "GEN" ⟨"GEN", 0, 0⟩ ["o", "r"]) := by
   constructor
   · decide
   · simp [bpR, mkDisabled]
 
-/-- non-vacuity: a merge over `INNER` of a struct whose member is a split reference,
-projected by that member (the A.1 shape after static resolution) is well shaped -/
+/-- non-vacuity: a merge over `INNER` of a struct of references to a node inside it, projected by
+a member, is a merge of the projected reference -/
 example :
     wtR [("R", [⟨"r", ⟨"int", 0, 0⟩⟩])] ⟨"R", 0, 1⟩
-      (.merge "INNER" false (.struct [("r", .split "INNER" false (.ref "GEN" ⟨"GEN", 0, 0⟩ []))])) = true := by
-  decide
+      (.merge "INNER" false (.struct [("r", .ref "INNER.W" ⟨"W", 0, 0⟩ ["y"])])) = true ∧
+    bpR "r" (.merge "INNER" false (.struct [("r", .ref "INNER.W" ⟨"W", 0, 0⟩ ["y"])]))
+      = .merge "INNER" false (.ref "INNER.W" ⟨"W", 0, 0⟩ ["y"]) := by
+  constructor
+  · decide
+  · simp [bpR, mkMerge]
+
+/-- `MergeExp.BindingPath` on the A.1 shape (a mapped pipeline that returns its split input):
+"merging the elements of a collection which was split over the very same call gives back the
+collection" — the projection of the merge is the split SOURCE, not a merge (`mkMerge`).  Such a
+merge is excluded from `wtR` (the shape discipline of `bindingPath_sound_forks`): the
+cancellation is sound exactly for the stores in which the index set of the call is that of the
+collection and the collection does not vary with the call's fork: -/
+theorem merge_split_cancel_sound (st : StructTable) (ρ : Store) (f : ForkAssign) (c : String) (v : RExp)
+    (xs : List J) (hv : evalR st ρ f v = .arr xs)
+    (hind : ∀ k, k < xs.length → evalR st ρ (fset f c (.i k)) v = .arr xs)
+    (hidx : ρ.idx c f = (List.range xs.length).map .i) :
+    evalR st ρ f (.merge c false (.split c false v)) = evalR st ρ f v :=
+  merge_split_cancel_arr st ρ f c v xs hv hind hidx
+
+example :
+    bpR "r" (.merge "INNER" false (.struct [("r", .split "INNER" false (.ref "GEN" ⟨"GEN", 0, 0⟩ ["xs"]))]))
+      = .ref "GEN" ⟨"GEN", 0, 0⟩ ["xs"] ∧
+    -- … but not when the collection itself is an element of an enclosing split
+    bpR "r" (.merge "INNER" false (.struct [("r", .split "INNER" false
+        (.split "OUTER" false (.ref "GEN" ⟨"GEN", 0, 0⟩ ["xss"])))]))
+      = .merge "INNER" false (.split "INNER" false (.split "OUTER" false (.ref "GEN" ⟨"GEN", 0, 0⟩ ["xss"]))) := by
+  constructor <;> simp [bpR, mkMerge, hasSplitR]
 
 /-- Fork-index substitution on a split literal: the expression selected for fork
 `ix` denotes the `ix`-th element of the collection the literal denotes. -/
